@@ -6,6 +6,7 @@ package interp
 
 import (
 	"fmt"
+	"go/token"
 	"go/types"
 	"math"
 	"regexp"
@@ -505,6 +506,65 @@ func init() {
 		}
 		return math.Float64frombits(args[0].(uint64))
 	})
+
+	// sort.Slice / sort.SliceStable use reflection to swap; for the short slices jqawk
+	// sorts, the library's algorithm is insertion sort (n <= 12), reproduced here with
+	// the caller's less function interpreted.
+	sortSlice := func(fr *frame, args []value) value {
+		it, ok := args[0].(iface)
+		if !ok {
+			unsup("sort.Slice: operand is not an interface value")
+		}
+		data, ok := it.v.([]value)
+		if !ok {
+			unsup("sort.Slice on %T", it.v)
+		}
+		if len(data) > 12 {
+			unsup("sort.Slice on more than 12 elements (pdqsort is not modelled)")
+		}
+		less := func(i, j int) bool {
+			return fr.truth(call(fr.i, fr, 0, args[1], []value{i, j}))
+		}
+		for i := 1; i < len(data); i++ {
+			for j := i; j > 0 && less(j, j-1); j-- {
+				data[j], data[j-1] = data[j-1], data[j]
+			}
+		}
+		return nil
+	}
+	reg("sort.Slice", sortSlice)
+	reg("sort.SliceStable", sortSlice)
+
+	// sync / sync/atomic: the interpreter runs one goroutine per path, so locks are
+	// no-ops and atomics are plain loads and stores
+	nop := func(fr *frame, args []value) value { return nil }
+	for _, n := range []string{"(*sync.Mutex).Lock", "(*sync.Mutex).Unlock", "(*sync.RWMutex).Lock", "(*sync.RWMutex).Unlock", "(*sync.RWMutex).RLock", "(*sync.RWMutex).RUnlock"} {
+		reg(n, nop)
+	}
+	reg("(*sync.Mutex).TryLock", func(fr *frame, args []value) value { return true })
+	for _, ty := range []string{"Int32", "Uint32", "Int64", "Uint64", "Uintptr"} {
+		reg("sync/atomic.Load"+ty, func(fr *frame, args []value) value { return *args[0].(*value) })
+		reg("sync/atomic.Store"+ty, func(fr *frame, args []value) value { *args[0].(*value) = args[1]; return nil })
+		reg("sync/atomic.Swap"+ty, func(fr *frame, args []value) value {
+			p := args[0].(*value)
+			old := *p
+			*p = args[1]
+			return old
+		})
+		reg("sync/atomic.CompareAndSwap"+ty, func(fr *frame, args []value) value {
+			p := args[0].(*value)
+			if asUint64ish(*p) == asUint64ish(args[1]) {
+				*p = args[2]
+				return true
+			}
+			return false
+		})
+		reg("sync/atomic.Add"+ty, func(fr *frame, args []value) value {
+			p := args[0].(*value)
+			*p = binop(token.ADD, nil, *p, args[1])
+			return *p
+		})
+	}
 
 	// regexp: RE2 is the environment
 	reg("regexp.Compile", func(fr *frame, args []value) value {
